@@ -167,6 +167,9 @@ pub struct ChanModel {
     /// unreliable: credits per content hash from handed-over small packets
     pub small_credit: HashMap<u64, u32>,
     pub small_obtained: HashMap<u64, u32>,
+    /// unreliable receive channel: some packet arrived when the receive budget might not have had room for it
+    /// (the channel then legitimately drops the message)
+    pub maybe_dropped: bool,
 }
 
 pub struct DirState {
@@ -283,6 +286,7 @@ impl World {
                             partial_seen: BTreeMap::new(),
                             small_credit: HashMap::new(),
                             small_obtained: HashMap::new(),
+                            maybe_dropped: false,
                         },
                     );
                 }
@@ -961,6 +965,21 @@ impl World {
         let bytes = self.packets[pid].bytes.clone();
         let sender_time_ok = true;
         let _ = sender_time_ok;
+        // an unreliable packet arriving when the receive budget may be short is legitimately dropped
+        let need = match &self.packets[pid].info {
+            PInfo::UnrelSlice { ch, n, .. } => Some((*ch, n * SLICE)),
+            PInfo::SmallUnrel { ch, hashes } => Some((*ch, hashes.iter().map(|h| h.1).sum::<usize>())),
+            _ => None,
+        };
+        if let Some((ch, need)) = need {
+            if let Some((used, max)) = self.receiver(d).and_then(|r| r.verif_receive_memory(ch)) {
+                if used + need > max {
+                    if let Some(cm) = self.dirs[d.idx()].chans.get_mut(&ch) {
+                        cm.maybe_dropped = true;
+                    }
+                }
+            }
+        }
         if d.to_client {
             self.clients[d.client].process_packet(&bytes);
         } else {
